@@ -173,14 +173,11 @@ func indexIngest(repo Repo, index *types.Index, conf config.Config, locked bool)
 		mod = true
 	}
 
-	seen := map[digest.Digest]bool{}
-	scanChildren := []types.Descriptor{}
 	referrerResponse := map[string]types.Descriptor{}
 	digestTags := []types.Descriptor{}
 	// loop over manifests
 	for _, desc := range index.Manifests {
 		desc := desc
-		seen[desc.Digest] = true
 		if desc.MediaType == types.MediaTypeOCI1ManifestList && desc.Annotations != nil {
 			if referrerTagRe.MatchString(desc.Annotations[types.AnnotRefName]) {
 				digestTags = append(digestTags, desc)
@@ -188,9 +185,6 @@ func indexIngest(repo Repo, index *types.Index, conf config.Config, locked bool)
 			if desc.Annotations[types.AnnotReferrerSubject] != "" {
 				referrerResponse[desc.Annotations[types.AnnotReferrerSubject]] = desc
 			}
-		}
-		if types.MediaTypeIndex(desc.MediaType) {
-			scanChildren = append(scanChildren, desc)
 		}
 	}
 
@@ -287,7 +281,15 @@ func indexIngest(repo Repo, index *types.Index, conf config.Config, locked bool)
 		mod = true
 	}
 
-	// load child descriptors
+	// load child descriptors of the manifests as they are listed now, which is what a later load of the index sees
+	seen := map[digest.Digest]bool{}
+	scanChildren := []types.Descriptor{}
+	for _, desc := range index.Manifests {
+		seen[desc.Digest] = true
+		if types.MediaTypeIndex(desc.MediaType) {
+			scanChildren = append(scanChildren, desc)
+		}
+	}
 	for len(scanChildren) > 0 {
 		childIndex, err := repoGetIndex(repo, scanChildren[0], locked)
 		if err != nil {
